@@ -258,3 +258,68 @@ def peer_recv(seed, idx, fam="peer_recv"):
     return peer_script(f"{fam}/{idx}", seed * 37 + idx, st, opts=opts, lat=lat,
                        rand=[rng.randrange(65536), rng.choice([1, 65534, rng.randrange(65536)]), rng.randrange(65536)],
                        info={"mss": mss, "rx": rx, "reader": reader, "plen": plen})
+
+# ------------------------------------------------------------------ dedicated known-finding scenarios
+def kf_d4(seed=1):
+    """D4: the single ACK that re-opens a zero window is lost while nothing is outstanding."""
+    st = connect_steps()
+    st += [rule(**{"from": "B", "type": "state", "wnd_reopen": True, "act": "drop", "times": 1}),
+           {"op": "write", "ep": "a", "n": 2112, "chunk": 2112},   # fills B's receive buffer exactly
+           sleep(300000),                                          # ... acknowledged with a zero window
+           {"op": "write", "ep": "a", "n": 1000, "chunk": 1000},   # nothing can be segmented: no timer runs
+           sleep(100000),
+           {"op": "read", "ep": "b"},                              # the window re-opens, that ACK is lost
+           {"op": "flush", "ep": "a"},
+           {"op": "wait", "what": "flush", "timeout_us": 30 * SEC},
+           {"op": "drop", "ep": "a"}, {"op": "drop", "ep": "b"}, sleep(15 * SEC)]
+    socks = [sock("A", A_ADDR, rand=[10, 100], link_mtu=576), sock("B", B_ADDR, rand=[20, 200], link_mtu=576, rx_buf=2112)]
+    return script("kf_d4/0", seed, socks, st, net={"latency_us": 10000}, info={"family": "kf", "class": "fair-lossy", "kf": "D4"})
+
+def kf_d6(seed=1):
+    """D6: segmented-but-unsent data, peer closes the window: the RTO path transmits into the zero window."""
+    st = peer_open_active(1000, peer_isn=1000, wnd=1 << 20)
+    st += [{"op": "write", "ep": "a", "n": 528 * 8},
+           sleep(1100), peer("ack", wnd=0), sleep(1100), peer("ack", wnd=0),
+           sleep(1 * SEC), peer("ack", wnd=0), sleep(2 * SEC), peer("ack", wnd=1 << 20), sleep(200000), peer("ack"),
+           {"op": "drop", "ep": "a"}, sleep(15 * SEC)]
+    return peer_script("kf_d6/0", seed, st, opts=dict(link_mtu=576), lat=1000, rand=[10, 100], info={"family": "kf", "kf": "D6"})
+
+def kf_d1b(seed=1):
+    """D1b: an MTU probe is delivered, its ACKs are lost until the sender gives the probe up and re-segments it."""
+    st = connect_steps()
+    st += [{"op": "read", "ep": "b"},
+           {"op": "write", "ep": "a", "n": 6000},
+           sleep(65000),                      # first segment acked (delayed ACK), the probe is on its way
+           {"op": "net_set", "from": "B", "to": "A", "cut": True},
+           sleep(900000),                     # the probe and its retransmission time out
+           {"op": "net_set", "from": "B", "to": "A", "cut": False},
+           {"op": "flush", "ep": "a"},
+           {"op": "wait", "what": "flush", "timeout_us": 30 * SEC},
+           {"op": "drop", "ep": "a"}, {"op": "drop", "ep": "b"}, sleep(15 * SEC)]
+    socks = [sock("A", A_ADDR, rand=[10, 100]), sock("B", B_ADDR, rand=[20, 200])]
+    return script("kf_d1b/0", seed, socks, st, net={"latency_us": 10000}, info={"family": "kf", "kf": "D1b"})
+
+def kf_d14(seed=1):
+    """D14: one segment's transmissions are lost four times (below the retransmission limit of 5) with a
+    3 s inactivity timeout: the RTO back-off outlasts the inactivity timeout."""
+    st = connect_steps()
+    for n in range(1, 5):
+        st.append(rule(**{"from": "A", "type": "data", "seq_idx": 2, "nth": n, "act": "drop"}))
+    st += [{"op": "read", "ep": "b"},
+           {"op": "write", "ep": "a", "n": 3000},
+           {"op": "flush", "ep": "a"},
+           {"op": "wait", "what": "flush", "timeout_us": 40 * SEC},
+           {"op": "drop", "ep": "a"}, {"op": "drop", "ep": "b"}, sleep(15 * SEC)]
+    socks = [sock("A", A_ADDR, rand=[10, 100], link_mtu=576, inactivity_ms=3000), sock("B", B_ADDR, rand=[20, 200], link_mtu=576)]
+    return script("kf_d14/0", seed, socks, st, net={"latency_us": 10000}, info={"family": "kf", "class": "fair-lossy", "kf": "D14"})
+
+def kf_d6b(seed=1):
+    """D6b: the retransmission timer runs while only never-sent segments are queued; a segment sent
+    just before its deadline is retransmitted early."""
+    st = peer_open_active(1000, peer_isn=1000, wnd=1 << 20)
+    st += [{"op": "write", "ep": "a", "n": 528 * 8},
+           sleep(1100), peer("ack", wnd=0), sleep(1100), peer("ack", wnd=0),
+           sleep(150000), peer("ack", wnd=1 << 20),
+           sleep(1 * SEC), peer("ack"), sleep(300000), peer("ack"), sleep(300000), peer("ack"),
+           {"op": "drop", "ep": "a"}, sleep(15 * SEC)]
+    return peer_script("kf_d6b/0", seed, st, opts=dict(link_mtu=576), lat=1000, rand=[10, 100], info={"family": "kf", "kf": "D6b"})
